@@ -57,14 +57,24 @@ CheckRDestroy(e) ==
   ELSE IF ~S.hs[e.h].ex /\ ~e.err /\ \A c \in S.ctls : gone[c] = {} THEN "group-not-removed"
   ELSE ""
 
+\* Destroy: the strict result, or (handle that answered Existing() in a mixed state) nothing removed
+DestroyRes(T, e) ==
+  IF Against(T, e, SpecDestroy(S, e.h)) # "" /\ LazyAllowed(S, e.h) /\ Against(T, e, SpecDestroyLazy(S, e.h)) = ""
+  THEN SpecDestroyLazy(S, e.h) ELSE SpecDestroy(S, e.h)
+MkSet(e) == ToSet(e.names)
+CheckMk(T, e) ==
+  IF e.err THEN "harness-mkdir-failed"
+  ELSE Against(T, e, SpecMk(S, e.path, MkSet(e)))
+
 Check(T, e) ==
-  CASE e.op = "top"     -> Against(T, e, SpecNewAt(S, <<>>))
-    [] e.op = "new"     -> Against(T, e, SpecNew(S, e.h, e.name))
+  CASE e.op = "top"     -> Against(T, e, SpecNewAtEx(S, <<>>, e.ex))
+    [] e.op = "mk"      -> CheckMk(T, e)
+    [] e.op = "new"     -> Against(T, e, SpecNewEx(S, e.h, e.name, e.ex))
     [] e.op = "random"  -> Against(T, e, SpecRandom(S, e.h, e.names))
-    [] e.op = "nest"    -> Against(T, e, SpecNest(S, e.h, e.name))
+    [] e.op = "nest"    -> Against(T, e, SpecNestEx(S, e.h, e.name, e.ex))
     [] e.op = "open"    -> Against(T, e, SpecOpen(S, e.path))
     [] e.op = "add"     -> Against(T, e, SpecAdd(S, e.h, e.pid))
-    [] e.op = "destroy" -> Against(T, e, SpecDestroy(S, e.h))
+    [] e.op = "destroy" -> Against(T, e, DestroyRes(T, e))
     \* a limit the kernel refuses (hierarchy constraints, usage above the limit) is reported as an
     \* error; a limit that was accepted must be the one in force
     [] e.op = "set"     -> (IF ~e.err /\ e.rb # Limit(e) THEN "limit-not-in-force"
@@ -74,13 +84,14 @@ Check(T, e) ==
     [] OTHER -> "unknown-event"
 
 Apply(T, e) ==
-  CASE e.op = "top"     -> SpecNewAt(S, <<>>).S
-    [] e.op = "new"     -> SpecNew(S, e.h, e.name).S
+  CASE e.op = "top"     -> SpecNewAtEx(S, <<>>, e.ex).S
+    [] e.op = "mk"      -> SpecMk(S, e.path, MkSet(e)).S
+    [] e.op = "new"     -> SpecNewEx(S, e.h, e.name, e.ex).S
     [] e.op = "random"  -> SpecRandom(S, e.h, e.names).S
-    [] e.op = "nest"    -> SpecNest(S, e.h, e.name).S
+    [] e.op = "nest"    -> SpecNestEx(S, e.h, e.name, e.ex).S
     [] e.op = "open"    -> SpecOpen(S, e.path).S
     [] e.op = "add"     -> SpecAdd(S, e.h, e.pid).S
-    [] e.op = "destroy" -> SpecDestroy(S, e.h).S
+    [] e.op = "destroy" -> DestroyRes(T, e).S
     [] e.op = "cdone"   -> AddHandle([S EXCEPT !.dirs = ObsDirs(e)],
                                      Handle(e.path, e.ex, IF e.ex THEN {} ELSE S.ctls, S.ctls))
     [] e.op = "rdestroy" -> [S EXCEPT !.dirs = ObsDirs(e), !.hs[e.h].live = FALSE]
